@@ -72,6 +72,7 @@ func c05Scenario(r *Run, ts []pduType, idx, maxCallers int) {
 		c        *Call
 		answered bool
 		early    bool
+		wantID   uint32 // command_id of what the peer answered with
 	}
 	var calls []*cs
 	var specs []CallSpec
@@ -115,9 +116,26 @@ func c05Scenario(r *Run, ts []pduType, idx, maxCallers int) {
 			if w.Held(x.c) {
 				x.early, earlyAny = true, true
 			}
-			if rng.Intn(4) == 0 { // the peer may refuse the request: still the response Submit has to return, without error
+			x.wantID = idOfPDU(x.c.P) | 0x80000000
+			switch k2 := rng.Intn(12); {
+			case k2 < 3: // the peer may refuse the request: still the response Submit has to return, without error
 				w.PeerPDU(respStatus(x.c.P, x.c.Seq, uint32(1+rng.Intn(0x400))))
-			} else {
+			case k2 < 5 || (idx == 0 && len(calls) == 1):
+				// ... or answer with generic_nack carrying the request's sequence number (SMPP 4.1.1: "command_id invalid",
+				// "PDU too long" ...): that is the PDU whose sequence number equals the request's
+				x.wantID = idGenericNack
+				w.PeerPDU(&pdu.GenericNACK{Header: pdu.Header{CommandStatus: pdu.CommandStatus(1 + rng.Intn(0xFF)), Sequence: x.c.Seq}})
+			case k2 < 6:
+				// ... or with a response PDU of another type
+				other := &pdu.SubmitSMResp{Header: pdu.Header{Sequence: x.c.Seq}, MessageID: "x"}
+				if x.wantID == idOfPDU(other) {
+					w.PeerPDU(&pdu.DeliverSMResp{Header: pdu.Header{Sequence: x.c.Seq}})
+					x.wantID = idOfPDU(&pdu.DeliverSMResp{})
+				} else {
+					w.PeerPDU(other)
+					x.wantID = idOfPDU(other)
+				}
+			default:
 				w.PeerPDU(respFor(x.c.P, x.c.Seq))
 			}
 		case k == 9:
@@ -152,7 +170,7 @@ func c05Scenario(r *Run, ts []pduType, idx, maxCallers int) {
 	}
 	for _, x := range calls {
 		c := x.c
-		want := fmt.Sprintf("ok:%#x:%d", idOfPDU(c.P)|0x80000000, c.Seq)
+		want := fmt.Sprintf("ok:%#x:%d", x.wantID, c.Seq)
 		if got := c.Class(); got != want {
 			cls := "submit/wrong-outcome"
 			if x.early {
